@@ -1,6 +1,6 @@
 (* C09 - specification vocabulary used in the statements of Properties_C09.v.
    NO PROOFS IN THIS FILE. *)
-From Coq Require Import List Arith.
+From Coq Require Import List Arith NArith.
 
 Section Spec.
   Variable T : Type.
@@ -18,3 +18,7 @@ Section Spec.
   (* entry (r, c) of a row-major array with ncol columns *)
   Definition ent (ncol : nat) (l : list T) (r c : nat) : T := nth (r * ncol + c) l zero.
 End Spec.
+
+(* x is a value of the C type a_uint (32 bit).  Stated through binary N so that no
+   unary 2^32 is ever built. *)
+Definition U32 (x : nat) : Prop := (N.of_nat x < 4294967296)%N.
